@@ -9,6 +9,7 @@ stdout: JSON list (one per case) of lists (one per query, in order, same System 
    kind 0 privacyClass 1 isVisible 2 isPrivate; parents = [[fullName, name, has_kind, is_module], ...] nearest first
 level: 0 HIDDEN, 1 PRIVATE, 2 PUBLIC.  errcode as in c13_qnmatch.py.
 Special case {'objects': 1} -> [[fullName, name, is_module], ...] of the fixed System.
+A case with a key 'history' runs a System that changes between the queries (see run_history).
 An optional key 'system': 'main' (default) | 'shapes' selects the System: 'shapes' holds functions, classes, methods,
 attributes, class attributes and modules whose short names enumerate every underscore shape."""
 import json, re, sys, warnings
@@ -80,7 +81,55 @@ def build(rules, which='main'):
     return s
 
 
+def run_history(c):
+    """a System that changes between queries: c['history'] = {'modules': [(src, modname, parent, is_package), ...],
+    'steps': [step, ...]} with step =
+        ['queryall']                          ob.privacyClass of every object of system.allobjects, sorted by full name
+        ['query', fullName]                   one object (skipped when no object has that name now)
+        ['reparent', fullName, newModule, newName]   Documentable.reparent()
+        ['module', src, modname]              a further module is added and built (an __all__ re-export moves objects)
+    Returns the rows of the queries, in order (same System, same cache)."""
+    h = c['history']
+    s = model.System()
+    s.options.privacy = [(model.PrivacyClass(l), p) for l, p in c['rules']]
+    b = s.systemBuilder(s)
+    for src, name, parent, ispkg in h['modules']:
+        b.addModuleString(src, name, parent_name=parent, is_package=ispkg)
+    b.buildModules()
+    out = []
+
+    def row(o):
+        try:
+            r = [0, LEVEL[o.privacyClass]]
+        except Exception as e:  # noqa
+            r = [1, errcode(e)]
+        parents = []
+        p = o.parent
+        while p is not None:
+            parents.append([p.fullName(), p.name, int(p.kind is not None), int(isinstance(p, model.Module))])
+            p = p.parent
+        out.append([o.fullName(), o.name, int(o.kind is not None), int(isinstance(o, model.Module)), r, 0, parents])
+    for st in h['steps']:
+        if st[0] == 'queryall':
+            for k in sorted(s.allobjects):
+                row(s.allobjects[k])
+        elif st[0] == 'query':
+            if st[1] in s.allobjects:
+                row(s.allobjects[st[1]])
+        elif st[0] == 'reparent':
+            s.allobjects[st[1]].reparent(s.allobjects[st[2]], st[3])
+        elif st[0] == 'module':
+            b2 = s.systemBuilder(s)
+            b2.addModuleString(st[1], st[2])
+            b2.buildModules()
+        else:
+            raise ValueError(st)
+    return out
+
+
 def run_case(c):
+    if 'history' in c:
+        return run_history(c)
     if 'objects' in c:
         s = build([], c.get('system', 'main'))
         return [[o.fullName(), o.name, int(isinstance(o, model.Module))] for o in s.allobjects.values()]
@@ -116,4 +165,8 @@ def run_case(c):
 
 if __name__ == '__main__':
     cases = json.load(sys.stdin)
-    json.dump([run_case(c) for c in cases], sys.stdout)
+    real_stdout = sys.stdout
+    sys.stdout = sys.stderr              # pydoctor reports ("moving 'impl.Klass' into 'api'") on stdout
+    res = [run_case(c) for c in cases]
+    sys.stdout = real_stdout
+    json.dump(res, sys.stdout)
